@@ -511,10 +511,10 @@ package web
 //@   requires [callers-hold-no-lock] forall l int :: has($held, l) ==> lockLevel(l) < 1
 //@   requires [counter-equals-queue-length] count == len(entities) && 0 <= count && count < batchSize
 //@   requires forall i int :: 0 <= i && i < len(entities) ==> entities[i] != nil
-//@   ensures [C01,C04:a-parsed-entity-is-queued-for-the-next-store-call] result == nil && !flushedG ==> len(entities) == old(len(entities)) + 1 && entities[len(entities) - 1] == e
-//@   ensures [C01,C04:or-it-was-part-of-the-batch-stored-by-this-call] result == nil && flushedG ==> inFlushedG
-//@   ensures [C01,C04:a-stored-batch-is-not-kept] result == nil && flushedG ==> len(entities) == 0
-//@   ensures [C01,C04:counter-equals-queue-length] result == nil ==> count == len(entities) && count < batchSize
+//@   ensures [C01,C04,C15:a-parsed-entity-is-queued-for-the-next-store-call] result == nil && !flushedG ==> len(entities) == old(len(entities)) + 1 && entities[len(entities) - 1] == e
+//@   ensures [C01,C04,C15:or-it-was-part-of-the-batch-stored-by-this-call] result == nil && flushedG ==> inFlushedG
+//@   ensures [C01,C04,C15:a-stored-batch-is-not-kept] result == nil && flushedG ==> len(entities) == 0
+//@   ensures [C01,C04,C15:counter-equals-queue-length] result == nil ==> count == len(entities) && count < batchSize
 //@   at call StoreEntities#1 before
 //@     ghost inFlushedG := len($arg1) > 0 && $arg1[len($arg1) - 1] == e && len($arg1) == n0G + 1
 //@   at call StoreEntities#1
